@@ -59,7 +59,7 @@ def _merge_sites(fn):
     out = []
     for n in walk_local(fn):
         if isinstance(n, ast.Call) and isinstance(n.func, ast.Attribute) and n.func.attr == "extend" and n.args \
-                and norm(n.func.value).endswith(".arguments") and norm(n.args[0]).endswith(".arguments"):
+                and norm(n.func.value).endswith(".arguments") and norm(n.args[0]).endswith(".arguments") and "annotation" not in norm(n.func.value):
             out.append((n.func.value, n.args[0], n))
         elif isinstance(n, ast.AugAssign) and isinstance(n.op, ast.Add) and norm(n.target).endswith(".arguments") \
                 and norm(n.value).endswith(".arguments") and "annotation" not in norm(n.target):
